@@ -305,3 +305,39 @@ func FormatQuery(e *oracle.Expr, groupBy []string) string {
 	}
 	return s
 }
+
+// Keywordish are words that other query languages reserve; in this grammar they are ordinary fields.
+var Keywordish = []string{"and", "or", "not", "xor", "nand", "nor", "in", "is", "as", "by", "on", "if", "null", "true", "false", "like", "select", "from", "where", "group", "order",
+	"having", "limit", "between", "exists", "count", "sum", "distinct", "asc", "desc", "union", "all", "any", "eq", "ne", "lt", "gt"}
+
+// ShortIdentifiers lists every field of one and two characters, every three-letter field in lower case (all = false) or
+// in lower, upper and capitalised form (all = true), and the keyword-like words in three spellings.
+func ShortIdentifiers(all bool) []string {
+	const letters = "abcdefghijklmnopqrstuvwxyzABCDEFGHIJKLMNOPQRSTUVWXYZ"
+	const rest = letters + "0123456789_"
+	var out []string
+	for i := 0; i < len(letters); i++ {
+		out = append(out, letters[i:i+1])
+		for j := 0; j < len(rest); j++ {
+			out = append(out, letters[i:i+1]+rest[j:j+1])
+		}
+	}
+	for i := 0; i < 26; i++ {
+		for j := 0; j < 26; j++ {
+			for k := 0; k < 26; k++ {
+				w := string([]byte{letters[i], letters[j], letters[k]})
+				out = append(out, w)
+				if all {
+					out = append(out, strings.ToUpper(w), strings.ToUpper(w[:1])+w[1:])
+				}
+			}
+		}
+	}
+	for _, w := range Keywordish {
+		out = append(out, w, strings.ToUpper(w), strings.ToUpper(w[:1])+w[1:])
+		if len(w) > 1 {
+			out = append(out, w[:1]+strings.ToUpper(w[1:]))
+		}
+	}
+	return out
+}
